@@ -249,6 +249,7 @@ class Report:
         self.extra = {}
         self.parts = []
         self.exhaustive = None
+        self.replay_of = None
 
     def add_tlc(self, r, what):
         self.states += r.distinct
